@@ -57,7 +57,7 @@ var adAddrs = []string{"/ip4/1.2.3.4/tcp/1111", "/dns4/provider.example/tcp/443/
 
 // identities: provider (main), extended providers, publisher, unrelated
 type cast struct {
-	kt                       string
+	kt                         string
 	main, x, y, pub, unrelated *fixture.Identity
 }
 
@@ -140,15 +140,46 @@ func cloneAd(a *schema.Advertisement) *schema.Advertisement {
 	return &b
 }
 
+// anomaly reports what verify itself notices (set by TestCheck).
+var anomaly = func(sig, msg string) {}
+
+func fingerprint(ad *schema.Advertisement) string {
+	s := fmt.Sprintf("%v|%s|%q|%x|%v|%x|%x|%v", ad.PreviousID, ad.Provider, ad.Addresses, ad.Signature, ad.Entries, ad.Metadata, ad.ContextID, ad.IsRm)
+	if ep := ad.ExtendedProvider; ep != nil {
+		s += fmt.Sprintf("|ovr=%v", ep.Override)
+		for _, p := range ep.Providers {
+			s += fmt.Sprintf("|%s,%q,%x,%x", p.ID, p.Addresses, p.Metadata, p.Signature)
+		}
+	}
+	return s
+}
+
+// verify verifies twice: verification is a function of the advertisement (the
+// second answer equals the first) and leaves the advertisement as it was.
 func verify(ad *schema.Advertisement) (id peer.ID, err error, panicked bool, pmsg string) {
+	before := fingerprint(ad)
 	panicked, pmsg = vp.Guard(func() { id, err = ad.VerifySignature() })
+	if panicked {
+		return
+	}
+	var id2 peer.ID
+	var err2 error
+	if p2, m2 := vp.Guard(func() { id2, err2 = ad.VerifySignature() }); p2 {
+		return id, err, true, m2
+	}
+	if (err == nil) != (err2 == nil) || id != id2 {
+		anomaly("verify:second-verification-differs", fmt.Sprintf("first (%s, %v), second (%s, %v)", id, err, id2, err2))
+	}
+	if after := fingerprint(ad); after != before {
+		anomaly("verify:advertisement-modified-by-verification", fmt.Sprintf("before %s after %s", before, after))
+	}
 	return
 }
 
 type mutation struct {
-	name       string
-	signed     bool // the changed value is covered by a signature => must fail
-	apply      func(ad *schema.Advertisement) bool
+	name   string
+	signed bool // the changed value is covered by a signature => must fail
+	apply  func(ad *schema.Advertisement) bool
 }
 
 func mutations(c cast) []mutation {
@@ -185,7 +216,10 @@ func mutations(c cast) []mutation {
 			ad.Addresses[len(ad.Addresses)-1] += "/http"
 			return true
 		}},
-		{"address-added", true, func(ad *schema.Advertisement) bool { ad.Addresses = append(ad.Addresses, "/ip4/9.9.9.9/tcp/9"); return true }},
+		{"address-added", true, func(ad *schema.Advertisement) bool {
+			ad.Addresses = append(ad.Addresses, "/ip4/9.9.9.9/tcp/9")
+			return true
+		}},
 		{"address-removed", true, func(ad *schema.Advertisement) bool {
 			if len(ad.Addresses) == 0 {
 				return false
@@ -292,6 +326,7 @@ func TestCheck(t *testing.T) {
 		"added/removed addresses are non-empty strings (an empty address does not change the undelimited signed payload, which the statement excludes)",
 		"envelope alterations are judged semantically (same decoded envelope = not an alteration)",
 	)
+	anomaly = func(sig, msg string) { r.Violation(sig, "anomaly|"+sig, msg, nil) }
 	defer func() {
 		if err := r.Finish(); err != nil {
 			t.Fatal(err)
